@@ -79,7 +79,8 @@ REQUIRED_CLAUSES = ["args-unchanged", "module-tables-unchanged",
                     "equal-args-equal-results", "history-independent",
                     "total-on-domain", "result-finite-and-typed",
                     "illtyped->TypeError|ValueError", "copies-independent",
-                    "out-of-range->TypeError|ValueError|value"]
+                    "out-of-range->TypeError|ValueError|value",
+                    "reused-argument-objects"]
 
 
 # ------------------------------------------------------------------ discovery
@@ -467,6 +468,36 @@ def gen_args(rng, qual, sig):
             out += [Angle(a0 + rng.uniform(-2, 2)),
                     Angle(d0 + rng.uniform(-2, 2))]
         return out
+    if qual.startswith("JupiterMoons."):
+        if base == "apparent_rectangular_coordinates":
+            fict = rng.random() < 0.3
+            xyz = [0.0, 0.0, 1.0] if fict else \
+                [rng.uniform(-26, 26), rng.uniform(-26, 26),
+                 rng.uniform(-1, 1)]
+            return [g_epoch(rng, 1700.0, 2300.0)] + xyz + [
+                rng.uniform(99.0, 101.5), rng.uniform(0.0, 360.0),
+                rng.uniform(1.29, 1.31), rng.uniform(-3.2, 3.2),
+                rng.uniform(-0.03, 0.03),
+                0.0 if fict else rng.uniform(-0.06, 0.06), fict]
+        if base == "check_coordinates":
+            return [rng.uniform(-26, 26), rng.uniform(-26, 26)]
+        if base in ("check_occultation", "check_eclipse"):
+            if rng.random() < 0.5:
+                return [rng.uniform(-26, 26), rng.uniform(-26, 26),
+                        rng.uniform(-26, 26)]
+            return [0, 0, 0, g_epoch(rng, 1700.0, 2300.0),
+                    rng.randrange(1, 5)]
+        if base == "correct_rectangular_positions":
+            R = rng.uniform(5.9, 26.4)       # |X| <= R: X is a component of R
+            v = [rng.uniform(-1, 1) for _ in range(3)]
+            nrm = math.sqrt(sum(c * c for c in v)) or 1.0
+            xyz = [R * c / nrm for c in v]
+            if rng.random() < 0.3:
+                return [R, rng.randrange(1, 5), rng.uniform(4.0, 6.5),
+                        tuple(xyz)]
+            return [R, rng.randrange(1, 5), rng.uniform(4.0, 6.5)] + xyz
+        if p_is_epoch_only(sig):
+            return [g_epoch(rng, 1700.0, 2300.0)]
     if base in ("vsop_pos", "geometric_vsop_pos", "apparent_vsop_pos"):
         import pymeeus.Venus as V
         args = [g_epoch(rng), V.VSOP87_L, V.VSOP87_B, V.VSOP87_R]
@@ -491,6 +522,13 @@ def gen_args(rng, qual, sig):
             break
         args.append(gen_param(rng, qual, name))
     return args
+
+
+def p_is_epoch_only(sig):
+    names = [n for n in sig.parameters if n != "self"]
+    return bool(names) and names[0] == "epoch" and all(
+        sig.parameters[n].default is not inspect.Parameter.empty
+        for n in names[1:])
 
 
 def make_instance(rng, cls_name):
@@ -625,6 +663,7 @@ class Universe(object):
         self.recent = []
         self.without_generator = set()
         self.called = set()
+        self.pool = {}
 
     def quiesce(self, force=False):
         if not force and self.calls % 200:
@@ -736,8 +775,56 @@ class Universe(object):
             mon.dev("equal-args-equal-results",
                     {"target": qual, "args": args,
                      "second_call_raised": repr(ex)})
+        self.reuse(target, args, inst)
         self.quiesce()
         return rs
+
+    def reuse(self, target, args, inst):
+        """Argument objects with a history: the Angle / Epoch objects of the
+        previous call of this target are re-set in place to the new values
+        and passed again; the result must equal the one obtained with fresh
+        objects holding the same values."""
+        mon = self.mon
+        qual = target[0]
+        if inst is not None or target[3] == "__init__":
+            return
+        prev = self.pool.get(qual)
+        self.pool[qual] = args
+        if prev is None or len(prev) != len(args):
+            return
+        used = []
+        n_re = 0
+        for old, new in zip(prev, args):
+            t = type(new).__name__
+            if type(old) is type(new) and t == "Angle":
+                old.set(new._deg)
+                used.append(old)
+                n_re += 1
+            elif type(old) is type(new) and t == "Epoch":
+                old.set(new._jde)
+                used.append(old)
+                n_re += 1
+            else:
+                used.append(new)
+        if not n_re:
+            return
+        fresh = copy.deepcopy(used)
+        mon.evals += 2
+        self.calls += 2
+        f = resolve(target)[0]
+        try:
+            r1 = f(*used)
+        except Exception as ex1:
+            r1 = ("raised", type(ex1).__name__)
+        try:
+            r2 = f(*fresh)
+        except Exception as ex2:
+            r2 = ("raised", type(ex2).__name__)
+        mon.cls("argument-objects-with-history", (qual, snap(fresh)))
+        mon.check("reused-argument-objects", snap(r1) == snap(r2),
+                  lambda: {"target": qual, "args": fresh,
+                           "with_reused_objects": repr(r1)[:300],
+                           "with_fresh_objects": repr(r2)[:300]})
 
     def history_pair(self, t1, t2):
         """r1 = f(a); g(b); r2 = f(copy of a): r1 == r2."""
